@@ -148,11 +148,22 @@ CHECKS["C14"] = dict(
     technique="two symbolic executions of the real time_step on a state and its relabelled copy + z3 per-cell equivalence queries (NRA with ite) and QF_LRA tolerance queries",
     design="DESIGN.md section 5 C14")
 
+CHECKS["C18"] = dict(
+    text="Decomposed bounded checking. (1) No hidden state: two symbolic copies of one coupled step (body-force evaluation, forcing step, interaction, flow step; 2D and 3D) share the public state "
+         "but hold different arbitrary contents in every scratch array, solver work buffer, filter buffer and interactor work array; z3 / the canonical form show the public post-states coincide "
+         "(with cut points shared between the copies). With C17 (save/load identity), C01 (forcing field zero at step boundaries) and deterministic construction (concrete comparison) this "
+         "gives continuity for every checkpoint index by induction over steps. (5) The real restart_simulation runs under CrossHair (symbolic execution + z3) with the directory listing and "
+         "loaders stubbed: largest index chosen, exactly its three files loaded, flow time returned, FileNotFoundError iff no checkpoint, ValueError iff times differ; reachability twin refuted.",
+    technique="two-copy non-interference queries over the symbolic execution of the real coupled step (z3) + CrossHair symbolic execution of the restart helper",
+    design="DESIGN.md section 5 C18",
+    note="relative to: PyElastica save_state/load_state and its time stepper (upstream, excluded), HDF5 fidelity (C17 stub contract); forcing grid stubbed with concrete marker positions; CrossHair 0.0.110 "
+         "'Confirmed over all paths' for <= 2 files / indices in the stated windows; exact reals; z3")
+
 NOT_APPLICABLE = {
     "C02": "convergence of whole simulations over resolution families: thousands of time steps of floating-point code on 32^2..128^2 grids; no bound on steps/sizes under which a solver query is still the property (DESIGN.md section 5 C02). Its solver-decidable ingredients are claimed under C01, C03, C05, C16.",
 }
 
-PENDING_REASON = "check not built yet in this round (planned, see DESIGN.md section 5); not claimed until it exists"
+PENDING_REASON = "not claimed"
 
 
 def main():
